@@ -431,6 +431,11 @@ def _used_names_in_file(filename: Path) -> Collection[str]:
     imported_names = tracing.get_imported_names(ast_root)
 
     names = []
+    # Whatever this file imports from another module is used by it, also if it is imported
+    # under another name, or only imported to be re-exported.
+    for node in core.walk(ast_root, ast.ImportFrom):
+        names.extend(alias.name for alias in node.names)
+
     for node in core.walk(ast_root, (ast.Name, ast.Attribute)):
         if isinstance(node, ast.Name) and node.id in imported_names:
             names.append(node.id)
